@@ -132,20 +132,21 @@ impl ChannelManager {
     // Gather all channels the user is a member of and sort them.
     let mut channel_list: Vec<StringAtom> = Default::default();
 
-    if let Some(in_channels_set) = in_channels.get(&nid.username) {
-      for channel_id in in_channels_set.iter() {
-        if as_owner {
-          match channels.get(&channel_id.handler) {
-            Some(channel) => {
-              if channel.0.read().await.is_owner(&nid) {
-                channel_list.push(channel_id.into());
-              }
-            },
-            None => continue,
-          }
-        } else {
+    // Copy the ids out first: no map guard may be held across the channel lock's await below.
+    let in_channels_set: Vec<ChannelId> =
+      in_channels.get(&nid.username).map(|set| set.iter().cloned().collect()).unwrap_or_default();
+
+    for channel_id in in_channels_set.iter() {
+      if as_owner {
+        let channel = match channels.get(&channel_id.handler) {
+          Some(kv) => kv.value().clone(),
+          None => continue,
+        };
+        if channel.0.read().await.is_owner(&nid) {
           channel_list.push(channel_id.into());
         }
+      } else {
+        channel_list.push(channel_id.into());
       }
     }
 
